@@ -54,6 +54,7 @@ volatile uint64_t last_activity_ns = 0;
 bool timing_verdicts = false;
 const uint64_t T_US[] = {1, 20, 50, 100, 200, 500, 1000, 3000, 10000};
 
+bool choreo = false;
 void gen_plan() {
     W.nvcpu = 1 + sim::rnd(3);
     static const size_t CAPS[] = {0, 0, 1, 1, 2, 4};
@@ -63,6 +64,26 @@ void gen_plan() {
     int nth = n_send + n_recv + (with_close ? 1 : 0);
     scripts.resize(nth); role.resize(nth); next_seq.assign(nth, 0); tst.resize(nth + 1);
     int infp = sim::rnd(3);   // 0: no untimed ops, 1: some, 2: many
+    if (sim::rnd(6) == 0 && !hx::param("no_choreo", 0)) {
+        // rendezvous under pressure: a sender with a very short deadline, a second sender right behind it and a receiver on
+        // another vCPU, all without a closer; whoever is left waiting with a partner available shows up at quiescence
+        W.nvcpu = 2 + sim::rnd(2); cap = 0; n_send = 2 + sim::rnd(2); n_recv = 1 + sim::rnd(2);
+        int nth2 = n_send + n_recv;
+        scripts.assign(nth2, {}); role.assign(nth2, 0); next_seq.assign(nth2, 0); tst.resize(nth2 + 1);
+        for (int t = 0; t < nth2; t++) {
+            role[t] = t < n_send ? 0 : 1;
+            int n = 1 + sim::rnd(4);
+            for (int i = 0; i < n; i++) {
+                Op o; o.idx = n_ops++;
+                if (role[t] == 0) { o.k = OP_SEND; o.inf = t != 0 && sim::rnd(2); o.timeout_us = t == 0 ? T_US[sim::rnd(3)] : T_US[3 + sim::rnd(6)]; }
+                else { o.k = OP_RECV; o.inf = sim::rnd(2); o.timeout_us = T_US[4 + sim::rnd(5)]; }
+                if (t != 0 && i == 0 && sim::rnd(2)) { Op p0; p0.idx = o.idx; p0.k = OP_PAUSE; p0.pause_us = T_US[sim::rnd(3)]; o.idx = n_ops++; scripts[t].push_back(p0); }
+                scripts[t].push_back(o);
+            }
+        }
+        choreo = true;
+        return;
+    }
     for (int t = 0; t < nth; t++) {
         role[t] = t < n_send ? 0 : (t < n_send + n_recv ? 1 : 2);
         if (role[t] == 2) {
